@@ -224,11 +224,39 @@ inductive Op where
   | eq | ne | gt | ge | lt | le
 deriving Repr, DecidableEq
 
-/-- `ConditionGroup` restricted to `Single(field op integer-literal)`, `Single(field op other-field)` (the
-right-hand side is a `Value::String` naming a field), `Compound`, `Not`;
-`xnot` is `Compound { operator: LogicalOperator::Not }`, which the parallel evaluator answers `false` -/
+/-- the scalar `Value`s of the typed core: `Integer(i)`, `Number(i as f64)` for an *integral* float (never a
+decimal: the case grammar writes `f<int>`), `String(s)`, `Boolean(b)`.  `|i| ≤ 2^53`, so `i as f64` is exact and
+comparing the floats is comparing the integers. -/
+inductive Val where
+  | int (i : Int)
+  | num (i : Int)
+  | str (s : String)
+  | bool (b : Bool)
+deriving Repr, DecidableEq
+
+/-- `s.parse::<f64>()` on the strings of the case grammar: an optional `-` and decimal digits is that number,
+any other admitted string is not a number (the grammar excludes every other spelling Rust's float parser accepts) -/
+def strNum? (s : String) : Option Int :=
+  let cs := s.toList
+  let ds := match cs with | '-' :: r => r | r => r
+  if !ds.isEmpty && ds.all Char.isDigit then
+    let n : Nat := ds.foldl (fun a c => a * 10 + (c.toNat - '0'.toNat)) 0
+    some (match cs with | '-' :: _ => -(n : Int) | _ => (n : Int))
+  else none
+
+/-- `Value::to_number` -/
+def Val.toNumber? : Val → Option Int
+  | .int i => some i
+  | .num i => some i
+  | .str s => strNum? s
+  | .bool _ => none
+
+/-- `ConditionGroup` restricted to `Single(field op scalar-literal)` (integer, integral float or boolean literal),
+`Single(field op string-literal)` (`leafRef`: a `Value::String`, which the evaluator first tries to resolve as the
+name of a field), `Compound`, `Not`; `xnot` is `Compound { operator: LogicalOperator::Not }`, which the parallel
+evaluator answers `false` -/
 inductive Cond where
-  | leaf (field : String) (op : Op) (lit : Int)
+  | leaf (field : String) (op : Op) (lit : Val)
   | leafRef (field : String) (op : Op) (other : String)
   | and (l r : Cond)
   | or (l r : Cond)
@@ -243,22 +271,31 @@ inductive Action where
   | setWorkflowData | append
 deriving Repr, DecidableEq
 
-/-- integer-valued facts keyed by (dotted) path; `get_nested(path).or_else(get(path))` -/
-abbrev Facts := List (String × Int)
+/-- scalar-valued facts keyed by (dotted) path; `get_nested(path).or_else(get(path))` -/
+abbrev Facts := List (String × Val)
 
-def lookup (f : Facts) (k : String) : Option Int :=
+def lookup (f : Facts) (k : String) : Option Val :=
   match f.find? (fun p => p.1 == k) with
   | some p => some p.2
   | none => none
 
-/-- `Operator::evaluate` on two `Value::Integer`s -/
-def Op.eval : Op → Int → Int → Bool
+/-- the ordering arms of `Operator::evaluate`: both sides through `to_number`, otherwise `false` -/
+def numCmp (p : Int → Int → Bool) (a b : Val) : Bool :=
+  match a.toNumber?, b.toNumber? with
+  | some x, some y => p x y
+  | _, _ => false
+
+/-- `Operator::evaluate` on two scalars (neither is `Null`): `==` / `!=` are the derived `PartialEq` of `Value` —
+**type-sensitive**: `Integer(25)`, `Number(25.0)` and `String("25")` are pairwise different, so are
+`Boolean(true)` and `String("true")`; the ordering operators compare `to_number()`s (a numeric-looking string
+counts as its number, a boolean or any other string makes the comparison `false`) -/
+def Op.eval : Op → Val → Val → Bool
   | .eq, a, b => a == b
   | .ne, a, b => a != b
-  | .gt, a, b => decide (b < a)
-  | .ge, a, b => decide (b ≤ a)
-  | .lt, a, b => decide (a < b)
-  | .le, a, b => decide (a ≤ b)
+  | .gt, a, b => numCmp (fun x y => decide (y < x)) a b
+  | .ge, a, b => numCmp (fun x y => decide (y ≤ x)) a b
+  | .lt, a, b => numCmp (fun x y => decide (x < y)) a b
+  | .le, a, b => numCmp (fun x y => decide (x ≤ y)) a b
 
 /-- `evaluate_rule_conditions` / `evaluate_single_condition` (a missing field ⇒ `false`) -/
 def Cond.eval : Cond → Facts → Bool
@@ -267,13 +304,13 @@ def Cond.eval : Cond → Facts → Bool
     | some v => op.eval v lit
     | none => false
   | .leafRef fld op other, f =>
-    -- `rhs = facts.get_nested(s).or_else(get(s)).unwrap_or(Value::String(s))`; an integer against a
-    -- (non-numeric) string: `==` false, `!=` true, ordering operators false (`to_number` is `None`)
+    -- `rhs = facts.get_nested(s).or_else(get(s)).unwrap_or(Value::String(s))`: the value of the field of that
+    -- name if there is one, otherwise the string itself
     match lookup f fld with
     | some v =>
       match lookup f other with
       | some w => op.eval v w
-      | none => op == .ne
+      | none => op.eval v (.str other)
     | none => false
   | .and l r, f => l.eval f && r.eval f
   | .or l r, f => l.eval f || r.eval f
